@@ -363,13 +363,14 @@ def gen_docs(classes, seed, tier):
 
 
 _FLAGNAME = {True: ":on", False: ":off", None: ":default"}
-# Observed on the unchanged tree (reported, not a character matter): polars reads a COLUMN NAME `*` as the wildcard (and
+# Observed on the tree before 5a37b53 (reported, repaired): polars reads a COLUMN NAME `*` as the wildcard (and
 # `^…$` as a regular expression) in `DataFrame.select([...names])`; `prepare_dataframe_for_body_encoding` selects the
 # remaining columns by name when page_by / subline_by remove key columns, so a frame with a column named `*` and a
 # page_by / subline_by column cannot be encoded (IndexError / polars DuplicateError).  The name `*` is therefore swept
 # as a header-from-column-name only in documents without key columns (where it is written and read back like any other
 # character); `^…$` names never arise here (^ is a conversion trigger, names have the default flag).
-POLARS_SELECTOR_NAMES = ("*",)
+# Repaired in rtflite 5a37b53 (D45: the remaining columns are selected by position): nothing is special-cased any more.
+POLARS_SELECTOR_NAMES = ()
 
 
 def gen_doc(qs, rng):
